@@ -697,6 +697,7 @@ where
 }
 
 //@ harness: c12_skip_decimal_fixed_delegates
+//@   replay: no
 //@   props: C12
 //@   tier: quick
 //@   kind: complete (modular: read_decimal replaced by its ASSUMED contract, A11)
